@@ -13,6 +13,18 @@ STUB_SETS = {
 DEFAULT_VARIANT = [dict(name="default", env={}, target="kani")]
 
 PROPS = {
+    "C08": dict(
+        modules=["c08"],
+        quick=dict(jobs=14, timeout_s=900, mem_gb=8),
+        thorough=dict(jobs=12, timeout_s=3600, mem_gb=16),
+        bounds="every valid UTF-8 string of exactly 4 (quick) / 5 (thorough) bytes; every a <= b accepted by Span::new / Position::new",
+        outside="strings longer than the byte bound; needles and literals other than the instantiated ones",
+        explanation="Relational bounded model checking: each leaf node run on Span(s,a,b)/Position(s,a) and on a standalone copy of the slice.",
+        assumptions=["input bytes form valid UTF-8"],
+        claim="For every string and sub-range within the bound every terminal matcher gives on the sub-input exactly the result "
+              "(verdict, offset shifted by a, content) it gives on a fresh copy of the slice; nothing at or beyond b is read.",
+        note="Trusts Kani/CBMC/CaDiCaL. Leaf level uses no stubs.",
+    ),
     "C06": dict(
         modules=["c06", "c06t"],
         quick=dict(jobs=14, timeout_s=900, mem_gb=8),
